@@ -172,6 +172,78 @@ fn replay_bytes(v: &Value) -> Result<Outcome, String> {
     Ok(o)
 }
 
+// ---- (a2) large inputs: long units, many units, long zero runs (compact descriptions)
+
+#[derive(Clone, Debug, Serialize, Deserialize, PartialEq, Eq, Hash)]
+pub struct LargeSpec {
+    pub count: u32,
+    pub len: u32,
+    /// zero bytes in front of every start code (they trail the previous unit, or lead the input)
+    pub zeros: u32,
+    pub sc4: bool,
+    pub trail: u32,
+    /// 0: no zero bytes inside units; 1: `00 00 03 xx` sequences inside; 2: single zeros and 0x01 bytes inside
+    pub fill: u8,
+}
+
+fn large_bytes(c: &LargeSpec) -> Vec<u8> {
+    let mut d = Vec::with_capacity((c.count as usize) * (c.len as usize + c.zeros as usize + 4) + c.trail as usize);
+    for i in 0..c.count {
+        d.extend(std::iter::repeat(0u8).take(c.zeros as usize));
+        if c.sc4 {
+            d.push(0);
+        }
+        d.extend_from_slice(&[0, 0, 1]);
+        let mut x = (i as u64).wrapping_mul(0x9E37_79B9_7F4A_7C15) | 1;
+        for j in 0..c.len {
+            x ^= x << 13;
+            x ^= x >> 7;
+            x ^= x << 17;
+            let b = ((x >> 24) as u8) | 0x10;
+            d.push(match c.fill {
+                0 => b,
+                1 => match j % 9 {
+                    3 | 4 => 0,
+                    5 => 3,
+                    _ => b,
+                },
+                _ => match j % 7 {
+                    2 => 0,
+                    4 => 1,
+                    _ => b,
+                },
+            });
+        }
+    }
+    d.extend(std::iter::repeat(0u8).take(c.trail as usize));
+    d
+}
+
+fn large_cases(t: Tier) -> Vec<LargeSpec> {
+    let mut v = Vec::new();
+    let lens: &[u32] = &[65_531, 65_532, 65_535, 65_536, 65_537, 1 << 20, (1 << 20) + 1, 3_000_001];
+    for (k, &len) in lens.iter().enumerate() {
+        v.push(LargeSpec { count: 1 + (k as u32 % 3), len, zeros: k as u32 % 3, sc4: k % 2 == 0, trail: k as u32 % 4, fill: (k % 3) as u8 });
+    }
+    if t == Tier::Thorough {
+        v.push(LargeSpec { count: 2, len: (1 << 24) + 1, zeros: 0, sc4: false, trail: 0, fill: 0 });
+    }
+    for (k, &count) in [255u32, 256, 257, 1000, 4096, 65_535, 65_536, 65_537, 70_000].iter().enumerate() {
+        v.push(LargeSpec { count, len: 1 + (k as u32 % 4), zeros: (k as u32 / 2) % 2, sc4: k % 2 == 1, trail: 0, fill: (k % 3) as u8 });
+    }
+    for (k, &zeros) in [5u32, 100, 255, 256, 257, 1000, 65_535, 65_536, 70_000, 1 << 20].iter().enumerate() {
+        v.push(LargeSpec { count: 3, len: 5, zeros, sc4: k % 2 == 0, trail: if k % 2 == 0 { zeros } else { 0 }, fill: 0 });
+    }
+    v
+}
+
+fn eval_large(c: &LargeSpec) -> Outcome {
+    let mut o = Outcome::default();
+    check_bytes(&mut o, &large_bytes(c));
+    o.nontrivial = true;
+    o
+}
+
 // ---- (b) constructive NAL lists
 
 #[derive(Clone, Debug, Serialize, Deserialize, PartialEq, Eq, Hash)]
@@ -461,6 +533,12 @@ pub fn def() -> PropertyDef {
             Box::new(PSub { name: "constructive", quick: 20000, thorough: 800000, strat: constructive_strategy, eval: eval_constructive }),
             Box::new(PSub { name: "random_bytes", quick: 60000, thorough: 600000, strat: random_strategy, eval: eval_random }),
             Box::new(ESub { name: "adts_exhaustive", run: run_adts, replay: replay_adts }),
+            Box::new(LSub {
+                name: "large_inputs",
+                cases: large_cases,
+                eval: eval_large,
+                note: "fixed list: units of 65 531 .. 3 000 001 bytes (2^24 + 1 in the thorough tier), 255 .. 70 000 units per input, runs of 5 .. 2^20 zero bytes before start codes and at the end",
+            }),
         ],
     }
 }
